@@ -2,17 +2,18 @@
 
 _NOTE = ("Trusted: Lean kernel, axioms propext/Classical.choice/Quot.sound, Mathlib; the hand-written model Model/Layout.lean is "
          "validated against the constructors of pydsdl/_serializable by differential testing on every run (not proved equal to the code); "
-         "the Specification text is not available offline: Spec definitions are my formalisation of the property statement.")
+         "the Specification text is not available offline: Spec definitions are my formalisation of the property statement."
+         " Since round 3 the constructor code itself is also translated to Lean from /repo on every run (tools/py2lean.py -> lean/Gen/Layout.lean) and proved, in Bridge/Layout.lean, to return exactly the model's values without raising (theorems C0x.gen_*).")
 
 REG = {
     "C02": {
-        "module": "Props.C02",
+        "module": ["Props.C02", "Props.C02Gen"],
         "suites": [("layout", (1200, 40000))],
         "rule": "random type trees (depth 1-4: every primitive width 1..64, voids, fixed/variable arrays with capacities at the 2**8/2**16/2**32/2**64 "
                 "boundaries, structures, unions incl. 255..258 variants, delimited types with admissible and inadmissible extents) built through the "
                 "public constructors; queries: alignment, extent, min/max/residues/expansion of bit_length_set, prefix/tag/header widths; "
                 "non-trivial = accepted type of depth >= 1 with at least one query; distinct = distinct (type, queries)",
-        "technique": "Lean 4 theorems over an executable layout model (structural induction over all type trees) + differential correspondence with the real constructors",
+        "technique": "Lean 4 theorems over an executable layout model (structural induction over all type trees), re-checked on every run against Lean definitions translated from the constructors' Python source (py2lean + bridge theorems) + differential correspondence with the real constructors",
         "level_text": "For the modelled type constructors it is proved in Lean 4, for all type trees, that the bit length set expression built by the library denotes the "
                       "Specification's length set, that every length is a multiple of the alignment (composites: of 8), that prefix and tag widths are the smallest of 8/16/32/64 "
                       "that hold the capacity / variant index, that a sealed composite's extent is its longest representation and that a delimited composite's set is header + {0,8,..,extent}; "
@@ -22,12 +23,12 @@ REG = {
         "assumptions": ["Model/Layout.lean mirrors pydsdl/_serializable (validated by the layout correspondence on every run)"],
     },
     "C08": {
-        "module": "Props.C08",
+        "module": ["Props.C08", "Props.C08Gen"],
         "suites": [("layout", (1200, 40000))],
         "rule": "random composite types (as for C02) x 1-2 base offset sets each (aligned or not, single or multi-valued) x every field position; "
                 "fixed-length arrays of <= 12 elements for element offsets; `_offset_` at a random position and after the last field, and "
                 "`_bit_length_` / `_extent_`, evaluated by the real parser on rendered DSDL text; non-trivial = accepted type of depth >= 1 with a query",
-        "technique": "Lean 4 theorems over the executable offset model + differential correspondence with iterate_fields_with_offsets / DSDL intrinsics",
+        "technique": "Lean 4 theorems over the executable offset model, re-checked on every run against Lean definitions translated from the iterate_fields_with_offsets generators' Python source (py2lean + bridge theorems) + differential correspondence with iterate_fields_with_offsets / DSDL intrinsics",
         "level_text": "Proved in Lean 4 for all composites, base offset sets and field positions: the offset expressions built by iterate_fields_with_offsets / "
                       "enumerate_elements_with_offsets denote exactly the specified start positions (previous start + any previous length, padded to the field's alignment), one per field in order; "
                       "union variants share base + tag; delimited types add the header; `_offset_` after j fields is the set of lengths of everything before and the API offset is its padding; "
